@@ -39,6 +39,19 @@ def unit(job, variant, pi, seed, length, fork_every):
         buff = views["buff"]
         if not isinstance(buff, Stat) or any(x != x for x in buff.model_dump().values()):
             fail("buff-not-a-stat", value=repr(buff)[:200])
+        elif i % 4 == 0:
+            # the total buff is the monoid sum (repeated +, independent of Stat.sum) of the switched-on component buffs
+            store = eng._history.current_store()
+            total = Stat()
+            for view in eng._viewset.get_views(r".*\.buff"):
+                b = view(store)
+                if b is not None:
+                    total = total + b
+            bd, td = buff.model_dump(), total.model_dump()
+            if any(abs(bd[k] - td[k]) > 1e-6 * max(1.0, abs(td[k])) for k in bd):
+                fail("buff-is-not-the-sum-of-component-buffs",
+                     diff={k: (bd[k], td[k]) for k in bd if abs(bd[k] - td[k]) > 1e-6 * max(1.0, abs(td[k]))})
+            out["buff_sums"] = out.get("buff_sums", 0) + 1
         if any(k.running for k in views["keydown"]):
             out["keydown_running_states"] += 1
         if i % fork_every != 0:
@@ -125,6 +138,7 @@ def main(ck: Check):
         expect.extend(out["expect"])
         complib.merge_stats(mstats, out["mstats"])
     with ck.locked():
+        ck.regenerate(["core"])          # Props/C10_Views.lean is stated over the generated Stat.sum
         proved = ck.prove("Simaple.Props.C10")
         if not quick and proved:
             ck.leanchecker(["Simaple.Props.C10"])
